@@ -294,4 +294,64 @@ theorem Track.reinit {base l : LL K V} {F0 : List Nat} {cells : Cells K V} (t : 
     (h : Rep l cells) : Track base F0 l.reinit :=
   t.step h (Rep.touches_reinit l _) (Or.inr t.touches.fresh) (fun _ _ hl => by simp [LL.reinit, lookup] at hl)
 
+/-! copy() in ONE memory: `ret = self.__class__(…)` allocates a new anchor (`_init_ll`), then
+    `ret._set_key_and_add_to_front_of_ll(link[KEY], link[VALUE])` for every link met on the walk of the source -/
+
+/-- adding links one by one keeps the list well formed AND tracked -/
+theorem Rep.addAll_track {base l0 : LL K V} {F0 : List Nat} {c0 : Cells K V} (h : Rep l0 c0) (t : Track base F0 l0)
+    (r : List (K × V)) (hr : (keys (ringOf c0 ++ r)).Nodup) :
+    ∃ c1, Rep (l0.addAll (r.map fun p => (some p.1, some p.2))) c1 ∧ ringOf c1 = ringOf c0 ++ r ∧
+      Track base F0 (l0.addAll (r.map fun p => (some p.1, some p.2))) := by
+  induction r generalizing l0 c0 with
+  | nil => exact ⟨c0, h, by simp, t⟩
+  | cons p r ih =>
+    have hp : lookup p.1 c0 = none := by
+      rw [lookup_none_iff, ← keys_mapVal (·.2)]
+      simp only [keys_append, keys_cons] at hr
+      intro hm
+      exact (List.nodup_append.1 hr).2.2 p.1 hm p.1 (by simp) rfl
+    have h1 := h.addFront p.2 hp
+    have t1 := t.addFront h p.1 p.2
+    have hr' : (keys (ringOf (c0 ++ [(p.1, (l0.fresh, p.2))]) ++ r)).Nodup := by
+      rw [ringOf_snoc]; simpa using hr
+    obtain ⟨c1, g1, g2, g3⟩ := ih h1 t1 hr'
+    refine ⟨c1, by simpa [LL.addAll] using g1, ?_, by simpa [LL.addAll] using g3⟩
+    rw [g2, ringOf_snoc]; simp
+
+/-- the source list `l` seen in a later memory `m` (same anchor and table) -/
+def LL.inMemoryOf (l m : LL K V) : LL K V :=
+  { l with prev := m.prev, next := m.next, key := m.key, val := m.val, fresh := m.fresh }
+
+/-- COPY IN ONE MEMORY: the list built by copy() from a fresh anchor holds the same items in the same (eviction)
+    order, consists of new links only — disjoint from the source's — and the source list is still well formed,
+    with the same cells, in the memory that now also holds the copy -/
+theorem Rep.copy_in_same_memory {l : LL K V} {cells : Cells K V} (h : Rep l cells) :
+    ∃ cells', Rep (l.reinit.addAll l.flatten) cells' ∧ ringOf cells' = ringOf cells ∧
+      (∀ a ∈ footprint (l.reinit.addAll l.flatten) cells', a ∉ footprint l cells) ∧
+      Rep (l.inMemoryOf (l.reinit.addAll l.flatten)) cells := by
+  have h0 : Rep l.reinit [] := Rep.reinit l
+  have hn : (keys (ringOf ([] : Cells K V) ++ ringOf cells)).Nodup := by
+    simpa [ringOf, keys_mapVal] using h.nk
+  obtain ⟨c1, g1, g2, g3⟩ := h0.addAll_track (Track.start h0) (ringOf cells) hn
+  rw [← h.flatten] at g1 g3
+  have hfp : footprint l.reinit ([] : Cells K V) = [l.fresh] := rfl
+  refine ⟨c1, g1, by simpa [ringOf] using g2, fun a ha ha2 => ?_, ?_⟩
+  · have hlt : a < l.fresh := h.bound a ha2
+    rcases g3.owns g1 a ha with h1 | h1
+    · rw [hfp] at h1; simp at h1; omega
+    · have : l.reinit.fresh = l.fresh + 1 := rfl
+      omega
+  · -- the source in the memory right after the new anchor was allocated …
+    have hs : Rep (l.inMemoryOf l.reinit) cells := by
+      refine h.frame rfl rfl (Nat.le_succ _) (fun a ha => ?_)
+      have hlt : a < l.fresh := h.bound a ha
+      have hne : a ≠ l.fresh := Nat.ne_of_lt hlt
+      exact ⟨rd_upd_ne _ _ hne, rd_upd_ne _ _ hne, rd_upd_ne _ _ hne, rd_upd_ne _ _ hne⟩
+    -- … is not disturbed by the additions to the new list
+    have := hs.separate (l1 := l.reinit) (c1 := []) ⟨rfl, rfl, rfl, rfl, rfl⟩
+      (fun a ha ha2 => by
+        have hlt : a < l.fresh := h.bound a ha
+        rw [hfp] at ha2; simp at ha2; omega) g3.touches
+    exact this
+
 end C02
